@@ -284,14 +284,15 @@ impl C13 {
                     std::fs::write(&specf, serde_json::to_string(sc).unwrap()).expect("scratch write");
                     // the child's hash keys are decided here, so that the file bytes replay
                     let child_seed = dec.draw64("child.seed");
-                    let o = std::process::Command::new(&env.self_exe)
+                    let mut o = std::process::Command::new(&env.self_exe);
+                    let o = o
                         .arg("--child-write-graph")
                         .arg(&specf)
                         .arg(&path)
                         .arg(limit.to_string())
                         .arg(child_seed.to_string())
-                        .output()
-                        .expect("spawn child");
+                        .stdin(std::process::Stdio::null());
+                    let o = crate::cli::output_locked(o).expect("spawn child");
                     let txt = String::from_utf8_lossy(&o.stdout).to_string();
                     if txt.contains("RESULT ok") {
                         Ok(())
